@@ -332,9 +332,37 @@ def known_signature(rewrite, site_class):
     return None
 
 
-def attempt(spec):
+def decoy_sdls(M):
+    """two other schemas of the same process in which the carrier's names (and the names the rewrites introduce) have the
+    *other* kind: composite names are input objects in the first, leaf/input names are object types in the second.  What an
+    earlier schema declared must not make a later, broken SDL acceptable."""
+    roots = set((M.get("roots") or {}).values()) | {"Query", "Mutation", "Subscription"}
+    a, b = ["type Query { a: Int }"], ["type Query { a: Int }"]
+    for n, d in M["types"].items():
+        if n in roots:
+            continue
+        (a if d["kind"] in ("OBJECT", "INTERFACE", "UNION") else b).append(("input %s { a: Int }" if d["kind"] in ("OBJECT", "INTERFACE", "UNION") else "type %s { a: Int }") % n)
+    for n in ("ZzUndefined", "ZzUnknownInterface", "ZzNoSuchRoot", "ZzNoSuchType"):
+        a.append("input %s { a: Int }" % n)
+        b.append("type %s { a: Int }" % n)
+    b.append("interface ZzUnknownInterfaceI { a: Int }")
+    return ["\n".join(a) + "\n", "\n".join(b) + "\n"]
+
+
+def build_decoys(sdls):
+    for i, sdl in enumerate(sdls):
+        try:
+            run_async(create_engine(sdl, schema_name="c12decoy%d" % i))
+        except Exception as e:  # noqa
+            raise core.HarnessError("decoy schema does not build: %r\n%s" % (e, sdl))
+
+
+def attempt(spec, standalone=False):
     """build from the mutated SDL; raises Violation if an engine results"""
     M = spec["model"]
+    if standalone and spec.get("decoys"):
+        clean_registry()
+        build_decoys(spec["decoys"])
     text = spec["text"]
     extra = spec.get("extra") or {}
     unregistered = set(extra.get("unregistered") or ())
@@ -409,6 +437,8 @@ def case(c, stats):
     except Exception:  # noqa
         stats.hist["carrier_refused(C11 matter)"] = stats.hist.get("carrier_refused(C11 matter)", 0) + 1
         return
+    decoys = decoy_sdls(M)
+    build_decoys(decoys)
     ms = list(mutants(M, pieces))
     if len(ms) > MAX_MUTANTS:
         stride = len(ms) / MAX_MUTANTS
@@ -418,7 +448,7 @@ def case(c, stats):
         text = r["text"]
         if extra.get("edit"):
             text = SYNTAX_EDITS[extra["edit"]](text)
-        spec = {"model": M, "text": text, "rewrite": rewrite, "site_class": site_class, "extra": extra, "directive_names": sorted({p["name"] for p in mp if p["p"] == "directive"})}
+        spec = {"model": M, "text": text, "rewrite": rewrite, "site_class": site_class, "extra": extra, "directive_names": sorted({p["name"] for p in mp if p["p"] == "directive"}), "decoys": decoys}
         try:
             attempt(spec)
         except Violation as v:
@@ -440,7 +470,7 @@ def run_worker(seed, tier, index, nworkers):
 
 
 def replay(spec):
-    attempt(spec)
+    attempt(spec, standalone=True)
 
 
 TECHNIQUE = "fault enumeration over Hypothesis-generated valid schemas: every rewrite of an SDL violation catalogue at every site; oracle = create_engine / cook must raise and leave no usable engine"
